@@ -1056,3 +1056,95 @@ Proof.
   split; [exists e; exact He|]. split; [exact (fail_leaves_db _ o ms d e He)|].
   intros fe' H. unfold fault_points. rewrite H. reflexivity.
 Qed.
+
+(* ---------- every pending migration gets its version row, also when it issues no statement ---------- *)
+Theorem every_pending_version_recorded : forall o ms k d m,
+  ascending ms = true -> at_version k d = true -> id_conflict ms d = false ->
+  In m ms -> N.ltb k (m_version m) = true ->
+  In (Z.of_N (m_version m), m_id m) (db_rows (fst (run [] o ms d))) /\
+  In (insert_sql o (m_version m) (m_id m)) (txn_execs (i_log (snd (run [] o ms d)))).
+Proof.
+  intros o ms k d m Ha Hk Hf Hm Hv.
+  assert (Hp : In m (pending k ms)) by (unfold pending; apply filter_In; split; assumption).
+  destruct (run_from_k o ms k d Ha Hk Hf) as [Hd _]. split.
+  - rewrite Hd. unfold advanced, db_rows at 1; simpl. apply in_or_app. right.
+    unfold rows_of. apply in_map_iff. exists m. split; [reflexivity|exact Hp].
+  - rewrite (run_from_k_statements o ms k d Ha Hk Hf). apply in_concat.
+    exists (block_sqls o m). split; [apply in_map; exact Hp|].
+    unfold block_sqls. apply in_or_app. right. left. reflexivity.
+Qed.
+
+(* ---------- no retry: the first failing execution is the last call of the run ---------- *)
+Lemma run_list_stop : forall F o oth j l c i,
+  ~ In IAlter l -> In j F -> i_res i = None -> i_n i <= j ->
+  j < i_n (snd (run_list F o oth l (c, i))) -> i_n (snd (run_list F o oth l (c, i))) = S j.
+Proof.
+  intros F o oth j l. induction l as [|x l IH]; intros c i Hl Hj Hr Hle Hlt; [simpl in *; lia|].
+  rewrite run_list_cons_running in Hlt by exact Hr. rewrite run_list_cons_running by exact Hr.
+  assert (Hx : x <> IAlter) by (intros ->; apply Hl; left; reflexivity).
+  assert (Hl' : ~ In IAlter l) by (intros H; apply Hl; right; exact H).
+  destruct (exec F o oth x c i) as [c1 i1] eqn:Ex.
+  assert (Hi1 : i1 = snd (exec F o oth x c i)) by (rewrite Ex; reflexivity).
+  destruct x; try (
+    assert (Hn : i_n i1 = S (i_n i)) by (rewrite Hi1; apply exec_n; [intros e0; discriminate|exact Hr]);
+    destruct (Nat.eq_dec (i_n i) j) as [E|E];
+    [ assert (Hf : i_res i1 = Some (RErr DatabaseError))
+        by (rewrite Hi1; apply exec_fault_aborts; [discriminate|intros e0; discriminate|apply faulty_In; rewrite E; exact Hj]);
+      rewrite (run_list_finished F o oth l (c1, i1) _ Hf) in *; simpl; lia
+    | destruct (i_res i1) eqn:R1;
+      [ rewrite (run_list_finished F o oth l (c1, i1) _ R1) in *; simpl in *; lia
+      | apply IH; [exact Hl'|exact Hj|exact R1|lia|exact Hlt] ] ]).
+  - contradiction.
+  - (* IFail issues no call *)
+    assert (Hf : i_res i1 = Some (RErr e)) by (rewrite Hi1; reflexivity).
+    assert (Hn : i_n i1 = i_n i) by (rewrite Hi1; reflexivity).
+    rewrite (run_list_finished F o oth l (c1, i1) _ Hf) in *. simpl in *. lia.
+Qed.
+
+Theorem first_failure_ends_run : forall F o ms d j,
+  In j F -> j <> 1 -> (forall j', In j' F -> j' <> 1 -> j <= j') ->
+  j < i_n (snd (run F o ms d)) -> i_n (snd (run F o ms d)) = S j.
+Proof.
+  intros F o ms d j Hj Hj1 Hmin Hlt. unfold run, run_from in *.
+  change prelude with ([ICreate; IAlter] ++ [IBegin; IReadMax; IReadIds]) in *.
+  rewrite run_list_app in *.
+  (* the two calls outside the transaction *)
+  assert (H2 : forall r, r = run_list F o [] [ICreate; IAlter] (d, inst0) ->
+            (i_res (snd r) = None /\ i_n (snd r) = 2 /\ j <> 0) \/
+            (exists e, i_res (snd r) = Some e) /\ i_n (snd r) = 1 /\ (j = 0 \/ 1 <= j)).
+  { intros r ->. rewrite run_list_cons_running by reflexivity.
+    destruct (exec F o [] ICreate d inst0) as [c1 i1] eqn:E1.
+    assert (Hi1 : i1 = snd (exec F o [] ICreate d inst0)) by (rewrite E1; reflexivity).
+    assert (Hn1 : i_n i1 = 1) by (rewrite Hi1; apply (exec_n F o [] ICreate d inst0); [intros e0; discriminate|reflexivity]).
+    destruct (i_res i1) eqn:R1.
+    - right. rewrite (run_list_finished F o [] [IAlter] (c1, i1) _ R1). simpl. split; [eexists; exact R1|]. split; [exact Hn1|lia].
+    - left. rewrite run_list_cons_running by exact R1.
+      assert (Hn2 : i_n (snd (exec F o [] IAlter c1 i1)) = 2)
+        by (rewrite (exec_n F o [] IAlter c1 i1); [rewrite Hn1; reflexivity|intros e0; discriminate|exact R1]).
+      assert (Hr2 : i_res (snd (exec F o [] IAlter c1 i1)) = None).
+      { simpl. destruct (faulty F i1); simpl; [exact R1|]. destruct (sql_alter_vt c1); [destruct (can_autocommit_write [])|]; simpl; exact R1. }
+      destruct (exec F o [] IAlter c1 i1) as [c2 i2]. simpl run_list. cbn [snd] in *.
+      split; [exact Hr2|]. split; [exact Hn2|].
+      intros ->. assert (Hf : i_res (snd (exec F o [] ICreate d inst0)) = Some (RErr DatabaseError))
+        by (apply exec_fault_aborts; [discriminate|intros e0; discriminate|apply faulty_In; exact Hj]).
+      rewrite <- Hi1, R1 in Hf. discriminate. }
+  destruct (H2 _ eq_refl) as [[R2 [N2 J0]]|[[e R2] [N2 J0]]].
+  - destruct (run_list F o [] [ICreate; IAlter] (d, inst0)) as [c2 i2]. cbn [snd] in *.
+    assert (Hge : 2 <= j) by lia.
+    (* the rest contains no IAlter: one list *)
+    destruct (i_res (snd (run_list F o [] [IBegin; IReadMax; IReadIds] (c2, i2)))) eqn:R5.
+    + apply run_list_stop; [intros [H|[H|[H|[]]]]; discriminate|exact Hj|exact R2|lia|exact Hlt].
+    + assert (H5 : i_n (snd (run_list F o [] [IBegin; IReadMax; IReadIds] (c2, i2))) <= j).
+      { destruct (le_lt_dec (i_n (snd (run_list F o [] [IBegin; IReadMax; IReadIds] (c2, i2)))) j) as [L|L]; [exact L|].
+        pose proof (run_list_stop F o [] j [IBegin; IReadMax; IReadIds] c2 i2) as Hs.
+        assert (Hhit : hit_inv F (snd (run_list F o [] [IBegin; IReadMax; IReadIds] (c2, i2)))).
+        { apply run_list_hit; [intros [H|[H|[H|[]]]]; discriminate|].
+          intros j0 Hj0 Hne Hl0. rewrite N2 in Hl0. pose proof (Hmin j0 Hj0 Hne). lia. }
+        destruct (Hhit j Hj Hj1 L) as [e He]. rewrite R5 in He. discriminate. }
+      destruct (run_list F o [] [IBegin; IReadMax; IReadIds] (c2, i2)) as [c5 i5]. cbn [snd] in *.
+      apply run_list_stop; [apply plan_no_alter|exact Hj|exact R5|exact H5|exact Hlt].
+  - (* ICreate failed: one call was made *)
+    destruct (run_list F o [] [ICreate; IAlter] (d, inst0)) as [c2 i2]. cbn [snd] in *.
+    rewrite (run_list_finished F o [] [IBegin; IReadMax; IReadIds] (c2, i2) _ R2) in *. cbn [snd] in *. rewrite R2 in *.
+    cbn [snd] in *. lia.
+Qed.
